@@ -119,3 +119,94 @@ func (w *World) isCallerSuppliedMapField(fa *ssa.FieldAddr) bool {
 	ts := typeStr(st.Field(fa.Field).Type())
 	return ts == "map[string]string" || ts == "map[string]reflect.Type"
 }
+
+// ruleTablesStartEmpty: every fresh slice assigned to a numbering table of the
+// Encoder / Decoder (in Reset, in constructors, anywhere) has length 0: the
+// first name / definition / object of a stream gets ordinal 0 on both sides.
+// `make([]string, 1, 11)` leaves a phantom entry 0 and shifts every ordinal.
+func (w *World) ruleTablesStartEmpty(r *Report, rule string, owners []string) {
+	want := map[string]bool{}
+	for _, o := range owners {
+		want[o] = true
+	}
+	n := 0
+	for _, fn := range w.SrcFuncs() {
+		cnt := 0
+		for _, b := range fn.Blocks {
+			for _, in := range b.Instrs {
+				st, ok := in.(*ssa.Store)
+				if !ok {
+					continue
+				}
+				fa, ok := st.Addr.(*ssa.FieldAddr)
+				if !ok {
+					continue
+				}
+				if _, isSl := st.Val.Type().Underlying().(*types.Slice); !isSl {
+					continue
+				}
+				name := w.fieldNameOfAddr(fa)
+				if !want[ownerOf(name)] {
+					continue
+				}
+				length, fresh := int64(-1), false
+				switch v := st.Val.(type) {
+				case *ssa.MakeSlice:
+					fresh = true
+					if c, ok := v.Len.(*ssa.Const); ok && c.Value != nil {
+						length = c.Int64()
+					}
+				case *ssa.Const:
+					if v.IsNil() {
+						fresh, length = true, 0
+					}
+				case *ssa.Slice:
+					// table = table[:0] empties it in place
+					if _, _, isFld := w.fieldOfLoad(v.X); isFld && v.High != nil {
+						if c, ok := v.High.(*ssa.Const); ok && c.Value != nil && c.Int64() == 0 {
+							fresh, length = true, 0
+						}
+					}
+					if al, ok := v.X.(*ssa.Alloc); ok && al.Heap {
+						if pt, ok := al.Type().Underlying().(*types.Pointer); ok {
+							if at, ok := pt.Elem().Underlying().(*types.Array); ok {
+								fresh = true
+								length = at.Len()
+								lo := int64(0)
+								if v.Low != nil {
+									if c, ok := v.Low.(*ssa.Const); ok && c.Value != nil {
+										lo = c.Int64()
+									} else {
+										length = -1
+									}
+								}
+								if v.High != nil {
+									if c, ok := v.High.(*ssa.Const); ok && c.Value != nil {
+										length = c.Int64()
+									} else {
+										length = -1
+									}
+								}
+								if length >= 0 {
+									length -= lo
+								}
+							}
+						}
+					}
+				}
+				if !fresh {
+					continue
+				}
+				n++
+				cnt++
+				ok2 := length == 0
+				fact := "the table is made with length 0: the first entry gets ordinal 0"
+				if !ok2 {
+					fact = fmt.Sprintf("the table is made with length %d (-1: not a constant): phantom entries in front shift every ordinal against the peer's numbering", length)
+				}
+				r.add(rule, fmt.Sprintf("%s · fresh table #%d for %s", fnName(fn), cnt, name), w.instrPos(st), ok2, fact)
+			}
+		}
+	}
+	r.floor(rule+" (fresh tables)", n, 2)
+}
